@@ -31,8 +31,9 @@ COMPILE_CLASSES = {
 
 
 def run_shard(args):
-    d, seed, n, i, profile = args
-    sh(f'{HARNESS} emit --seed {seed} --n {n} --out {d} --shard {i} --profile {profile} > /dev/null 2>{d}/eerr_{i}.txt')
+    d, seed, n, i, profile = args[:5]
+    prior = args[5] if len(args) > 5 else 0
+    sh(f'{HARNESS} emit --seed {seed} --n {n} --out {d} --shard {i} --profile {profile} --prior {prior} > /dev/null 2>{d}/eerr_{i}.txt')
     sh(f'{DRIVER} emit < {d}/ecases_{i}.txt > {d}/emodel_{i}.obs 2>>{d}/eerr_{i}.txt')
     sh(f'{HARNESS} emit-canon --in {d}/emodel_{i}.obs --out {d}/emodel_canon_{i}.obs 2>>{d}/eerr_{i}.txt')
     return i
@@ -61,13 +62,13 @@ def text_of(x):
         return x
 
 
-def emit_run(tier, seed, d):
+def emit_run(tier, seed, d, prior=0):
     for k in list(WF):
         WF[k] = 0
     nshards = 16
     per = 40 if tier == 'quick' else 1200
     with ThreadPoolExecutor(16) as ex:
-        list(ex.map(run_shard, [(d, seed, per, i, 'wild' if i % 3 == 1 else 'rich') for i in range(nshards)]))
+        list(ex.map(run_shard, [(d, seed, per, i, 'wild' if i % 3 == 1 else 'rich', prior) for i in range(nshards)]))
     total = 0; files_equal = 0; nontriv = set(); feats = {}; samples = []; disagreements = []; findings = []
     for i in range(nshards):
         try:
